@@ -543,6 +543,11 @@ pub struct Shared {
     pub calls_after_cancel: Vec<AtomicU64>,
     pub calls: Vec<AtomicU64>,
     pub dropped: Vec<AtomicBool>,
+    /// scheduling points the failing call passes before it returns its error (a slow
+    /// failing call: other tasks, e.g. a canceller, can run in between)
+    pub fail_yields: AtomicU64,
+    /// the injected failure has been returned to the runner
+    pub failed: AtomicBool,
 }
 impl Shared {
     pub fn new(n: usize) -> Arc<Self> {
@@ -551,6 +556,8 @@ impl Shared {
             calls_after_cancel: (0..n).map(|_| AtomicU64::new(0)).collect(),
             calls: (0..n).map(|_| AtomicU64::new(0)).collect(),
             dropped: (0..n).map(|_| AtomicBool::new(false)).collect(),
+            fail_yields: AtomicU64::new(0),
+            failed: AtomicBool::new(false),
         })
     }
 }
@@ -580,6 +587,10 @@ impl Block for Wrapped {
             self.shared.calls_after_cancel[self.idx].fetch_add(1, Ordering::SeqCst);
         }
         if self.fail_on == Some(n) {
+            for _ in 0..self.shared.fail_yields.load(Ordering::SeqCst) {
+                crate::sched::hpoint();
+            }
+            self.shared.failed.store(true, Ordering::SeqCst);
             return Err(rustradio::Error::msg(format!("injected#{}", self.idx)));
         }
         self.inner.work()
